@@ -57,12 +57,79 @@ def packSetVal (ti idx : Nat) (w : WM) (c : CompId) (v : Val) : WM :=
     let row := ta.rows.getD idx default
     w.setArch ti { ta with rows := ta.rows.set idx { row with vals := row.vals.set k v } }
 
+/-- the archetype the pack ends in: an existing entity whose component set did not change stays in the archetype it
+    is in (no lookup); otherwise `getArchetype` of the final set -/
+def packTarget (e : Handle) (isCreate : Bool) (initial : Mask) (sh : Shared) (w : WM) (p : PackSt) : WM × Nat :=
+  match (if isCreate || !(initial == p.final) then none else (w.locOf e).arch : Option Nat) with
+  | some pi => (w, pi)
+  | none => w.getArch p.final sh
+
+theorem packTarget_create (e : Handle) (initial : Mask) (sh : Shared) (w : WM) (p : PackSt) :
+    packTarget e true initial sh w p = w.getArch p.final sh := rfl
+
+theorem packTarget_ne (e : Handle) (isCreate : Bool) (initial : Mask) (sh : Shared) (w : WM) (p : PackSt)
+    (h : initial ≠ p.final) : packTarget e isCreate initial sh w p = w.getArch p.final sh := by
+  unfold packTarget
+  have : (initial == p.final) = false := by simpa using h
+  rw [this]; simp
+
+theorem packTarget_stay (e : Handle) (initial : Mask) (sh : Shared) (w : WM) (p : PackSt) (pi : Nat)
+    (h : initial = p.final) (hl : (w.locOf e).arch = some pi) : packTarget e false initial sh w p = (w, pi) := by
+  unfold packTarget
+  have : (initial == p.final) = true := by simpa using h
+  rw [this, hl]; rfl
+
+theorem packTarget_noarch (e : Handle) (isCreate : Bool) (initial : Mask) (sh : Shared) (w : WM) (p : PackSt)
+    (hl : (w.locOf e).arch = none) : packTarget e isCreate initial sh w p = w.getArch p.final sh := by
+  unfold packTarget
+  split
+  · rename_i pi hpi
+    split at hpi
+    · cases hpi
+    · rw [hl] at hpi; cases hpi
+  · rfl
+
+/-- when the lookup of the final set returns the entity's own archetype anyway, staying is the lookup -/
+theorem packTarget_eq_getArch (e : Handle) (isCreate : Bool) (initial : Mask) (sh : Shared) (w : WM) (p : PackSt)
+    (h : isCreate = false → initial = p.final → ∀ pi, (w.locOf e).arch = some pi → w.getArch p.final sh = (w, pi)) :
+    packTarget e isCreate initial sh w p = w.getArch p.final sh := by
+  cases isCreate with
+  | true => rfl
+  | false =>
+    by_cases hne : initial = p.final
+    · cases hl : (w.locOf e).arch with
+      | none => exact packTarget_noarch e false initial sh w p hl
+      | some pi => rw [packTarget_stay e initial sh w p pi hne hl, h rfl hne pi hl]
+    · exact packTarget_ne e false initial sh w p hne
+
+/-- the archetype with the looked-up key exists and keys are unique: `getArchetype` returns it, state unchanged -/
+theorem getArch_own {w : WM} (hk : KeysOK w) (m : Mask) (sh : Shared) (pi : Nat) (hpi : pi < w.archs.length)
+    (hm : (w.arch pi).mask = closedMask w.deps m) (hs : (w.arch pi).shared.data = sh.data) :
+    w.getArch m sh = (w, pi) := by
+  rcases getArch_cases w m sh with ⟨h1, hlt, hm', hs'⟩ | ⟨_, _, hnone⟩
+  · exact Prod.ext h1 (hk.distinct _ _ hlt hpi (by rw [hm', hm]) (by rw [hs', hs]))
+  · exact absurd ⟨hm, hs⟩ (findArch_none hnone pi hpi)
+
+/-- on an entity whose archetype mask is closed, staying and looking the unchanged set up are the same -/
+theorem packTarget_closed {w : WM} (hk : KeysOK w) (e : Handle) (isCreate : Bool) (initial : Mask) (sh : Shared)
+    (p : PackSt) (pi : Nat) (hl : (w.locOf e).arch = some pi) (hpi : pi < w.archs.length)
+    (hm : (w.arch pi).mask = initial) (hsh : (w.arch pi).shared = sh)
+    (hcl : closedMask w.deps initial = initial) :
+    packTarget e isCreate initial sh w p = w.getArch p.final sh := by
+  apply packTarget_eq_getArch
+  intro _ hfin pi' hl'
+  rw [hl] at hl'; cases hl'
+  exact getArch_own hk p.final sh pi hpi (by rw [← hfin, hcl, hm]) (by rw [hsh])
+
 def packFinish (info : CompId → CompInfo) (e : Handle) (isCreate : Bool) (initial : Mask) (sh : Shared)
     (st : WM × PackSt × List Cb) : WM × List Cb :=
   let (w, p, cbs) := st
   if p.dead then (w, cbs) else
   let supplied := Mask.ofList (p.src.map (·.1))
-  let (w, ti) := w.getArch p.final sh
+  let stay : Option Nat := if isCreate || !(initial == p.final) then none else (w.locOf e).arch
+  let (w, ti) := match stay with
+    | some pi => (w, pi)
+    | none => w.getArch p.final sh
   let moved : WM × List Cb :=
     if isCreate then w.archInsert info ti e supplied
     else
@@ -204,7 +271,7 @@ theorem packFold_ctl (info : CompId → CompInfo) (e : Handle) (isCreate : Bool)
 /-- the state after `getArchetype` and the single move / insertion -/
 def packMoved (info : CompId → CompInfo) (e : Handle) (isCreate : Bool) (initial : Mask) (sh : Shared)
     (w : WM) (p : PackSt) : WM × List Cb :=
-  let g := w.getArch p.final sh
+  let g := packTarget e isCreate initial sh w p
   if isCreate then g.1.archInsert info g.2 e (Mask.ofList (p.src.map (·.1)))
   else
     match (g.1.locOf e).arch with
@@ -213,6 +280,26 @@ def packMoved (info : CompId → CompInfo) (e : Handle) (isCreate : Bool) (initi
         | some r => r
         | none => (g.1, [])
     | none => (g.1, [])
+
+theorem packTarget_cases (e : Handle) (isCreate : Bool) (initial : Mask) (sh : Shared) (w : WM) (p : PackSt) :
+    (isCreate = false ∧ initial = p.final ∧ ∃ pi, (w.locOf e).arch = some pi ∧
+      packTarget e isCreate initial sh w p = (w, pi)) ∨
+    packTarget e isCreate initial sh w p = w.getArch p.final sh := by
+  cases isCreate with
+  | true => exact Or.inr rfl
+  | false =>
+    by_cases hne : initial = p.final
+    · cases hl : (w.locOf e).arch with
+      | none => exact Or.inr (packTarget_noarch e false initial sh w p hl)
+      | some pi => exact Or.inl ⟨rfl, hne, pi, rfl, packTarget_stay e initial sh w p pi hne hl⟩
+    · exact Or.inr (packTarget_ne e false initial sh w p hne)
+
+/-- an existing entity that stays in its archetype is not moved -/
+theorem packMoved_stay (info : CompId → CompInfo) (e : Handle) (initial : Mask) (sh : Shared) (w : WM) (p : PackSt)
+    (pi : Nat) (hl : (w.locOf e).arch = some pi) (ht : packTarget e false initial sh w p = (w, pi)) :
+    packMoved info e false initial sh w p = (w, []) := by
+  unfold packMoved
+  simp only [ht, hl, Bool.false_eq_true, if_false, true_or, Bool.true_or, if_true, decide_true]
 
 def packStale (isCreate : Bool) (initial : Mask) (p : PackSt) (supplied tmask : Mask) : List CompId :=
   (p.final.filter (fun c => p.replaced.contains c && initial.contains c)).filter
@@ -234,7 +321,7 @@ def packF3 (info : CompId → CompInfo) (e : Handle) (tmask : Mask) (ti idx : Na
 /-- state after the stale-instance loop -/
 def packW2 (info : CompId → CompInfo) (e : Handle) (isCreate : Bool) (initial : Mask) (sh : Shared)
     (w : WM) (p : PackSt) : WM :=
-  let ti := (w.getArch p.final sh).2
+  let ti := (packTarget e isCreate initial sh w p).2
   let W1 := (packMoved info e isCreate initial sh w p).1
   let supplied := Mask.ofList (p.src.map (·.1))
   ((packStale isCreate initial p supplied (W1.arch ti).mask).foldl
@@ -245,8 +332,8 @@ theorem packFinish_fst (info : CompId → CompInfo) (e : Handle) (isCreate : Boo
     (sh : Shared) (w : WM) (p : PackSt) (cbs : List Cb) :
     (packFinish info e isCreate initial sh (w, p, cbs)).1 =
       if p.dead then w else
-        (p.src.foldl (packF3 info e ((packW2 info e isCreate initial sh w p).arch (w.getArch p.final sh).2).mask
-            (w.getArch p.final sh).2 ((packMoved info e isCreate initial sh w p).1.locOf e).idx)
+        (p.src.foldl (packF3 info e ((packW2 info e isCreate initial sh w p).arch (packTarget e isCreate initial sh w p).2).mask
+            (packTarget e isCreate initial sh w p).2 ((packMoved info e isCreate initial sh w p).1.locOf e).idx)
           (packW2 info e isCreate initial sh w p, [])).1 := by
   unfold packFinish packW2 packMoved
   simp only
@@ -273,11 +360,18 @@ theorem packF3_fst (info : CompId → CompInfo) (e : Handle) (tmask : Mask) (ti 
   · exact Or.inr rfl
   · exact Or.inl rfl
 
+theorem packTarget_sameTable (e : Handle) (isCreate : Bool) (initial : Mask) (sh : Shared) (w : WM) (p : PackSt) :
+    SameTable w (packTarget e isCreate initial sh w p).1 := by
+  unfold packTarget
+  split
+  · exact SameTable.refl w
+  · exact getArch_sameTable w p.final sh
+
 theorem packMoved_sameTable (info : CompId → CompInfo) (e : Handle) (isCreate : Bool) (initial : Mask)
     (sh : Shared) (w : WM) (p : PackSt) : SameTable w (packMoved info e isCreate initial sh w p).1 := by
   unfold packMoved
   simp only
-  refine (getArch_sameTable w p.final sh).trans ?_
+  refine (packTarget_sameTable e isCreate initial sh w p).trans ?_
   split
   · exact archInsert_sameTable info _ _ _ _
   · split
@@ -301,10 +395,10 @@ theorem packLoops_rel (R : WM → WM → Prop) (hrefl : ∀ a, R a a) (htrans : 
     simp only
     exact foldl_rel (fun a b : WM × List Cb => R a.1 b.1) (fun a => hrefl a.1)
       (fun _ _ _ h₁ h₂ => htrans _ _ _ h₁ h₂)
-      (packF2 info e (Mask.ofList (p.src.map (·.1))) (w.getArch p.final sh).2
+      (packF2 info e (Mask.ofList (p.src.map (·.1))) (packTarget e isCreate initial sh w p).2
         ((packMoved info e isCreate initial sh w p).1.locOf e).idx)
       (fun a c => by
-        rcases packF2_fst info e (Mask.ofList (p.src.map (·.1))) (w.getArch p.final sh).2
+        rcases packF2_fst info e (Mask.ofList (p.src.map (·.1))) (packTarget e isCreate initial sh w p).2
           ((packMoved info e isCreate initial sh w p).1.locOf e).idx a c with h | h <;> rw [h]
         · exact hrefl _
         · exact hset _ _ _ _ _) _ ((packMoved info e isCreate initial sh w p).1, [])
